@@ -6,7 +6,8 @@ Abstraction (cryptography and msgpack are NOT modelled here, they belong to C04/
   `bad id` (it does not: bit-flipped, sealed under a foreign key, garbage, unparsable request);
 * a discharge is `(ticket id, caveats)`: `newMacaroon(ticket, …)` makes the ticket the key id of
   the discharge; `caveats` are abstract ids of what the application passed, after `Macaroon.Add`'s
-  de-duplication (`dedup`, first occurrences kept);
+  de-duplication (`dedup`, first occurrences kept); id 0 stands for a caveat `Macaroon.Add` refuses
+  (`refuses`): `Discharge*` then returns the error and stores nothing, `RespondDischarge` answers 500;
 * secrets are fresh atoms: naturals drawn from the counter `Store.next` (`randHex(16)` idealised:
   fresh and unguessable); the store key of a secret is `⟨role, s⟩` — the Go code uses
   `"u"+blake2b(s)` and `"p"+blake2b(s)`; the hash is idealised as injective and the two one-letter
@@ -58,7 +59,17 @@ def dedup : List Nat → List Nat
   | [] => []
   | c :: cs => c :: (dedup cs).filter (fun x => x != c)
 
-/-- `DischargeTicket` on an opening ticket followed by `Add(caveats...)` -/
+/-- caveat id 0 stands for "a caveat `Macaroon.Add` refuses" (an attestation inside a wrapper
+caveat, a second `Caveat3P` for one location, an unencodable caveat); every other id is an
+ordinary caveat -/
+def refused (c : Nat) : Bool := c == 0
+
+/-- `Macaroon.Add(cs...)` returns an error: some caveat of the list is refused.  `Add` appends
+caveat by caveat, so the macaroon it leaves behind carries a strict prefix of the list — the
+callers in server.go discard it -/
+def refuses (cs : List Nat) : Bool := cs.any refused
+
+/-- `DischargeTicket` on an opening ticket followed by a successful `Add(caveats...)` -/
 def mkDischarge (tid : Nat) (cs : List Nat) : Discharge := ⟨tid, dedup cs⟩
 
 /-- kinds of response bodies; message text is abstracted to ids -/
@@ -203,17 +214,21 @@ def Action.notFoundOut : Action → Out
 def deliver (r : Resp) : Out := .http r.status r.body false
 
 /-- `dischargePoller` / `abortPoller` between their `Get` and their `Update`: the new data built
-from the COPY `sd`; `none` = `newFD` fails on the stored ticket -/
+from the COPY `sd`; `none` = `newFD` fails on the stored ticket, or `Add` refuses the caveats -/
 def decideData (sd : Data) : Decision → Option Data
   | .approve cs =>
     match sd.ticket with
-    | .good tid => some { sd with resp := some ⟨200, .discharge (mkDischarge tid cs)⟩ }
+    | .good tid =>
+      if refuses cs then none                         -- `fd.discharge.Add(caveats...)` fails: return err
+      else some { sd with resp := some ⟨200, .discharge (mkDischarge tid cs)⟩ }
     | .bad _ => none
   | .abort msg => some { sd with resp := some ⟨200, .error msg⟩ }
 
 /-- the application's init handler on an opened ticket -/
 def initGood (st : Store) (t : Ticket) (tid : Nat) : Mode → Store × Out
-  | .immediate cs => (st, .http 201 (.discharge (mkDischarge tid cs)) true)
+  | .immediate cs =>
+    if refuses cs then (st, .http 500 .internal true)   -- respondDischarge: Add fails, 500, no discharge
+    else (st, .http 201 (.discharge (mkDischarge tid cs)) true)
   | .poll =>
     let (st', us, ps) := st.insert ⟨t, none⟩
     (st', .http 201 (.pollUrl ps us) true)
